@@ -276,6 +276,30 @@ pub fn oracle(a: &Args, out: &Args) -> Option<(&'static str, String)> {
             return Some(("C05+C12+C13", format!("valid control stream cut at {:?} (request cut at {:?}, event {} in between): session established={} connection ended={:?}", a[2], a.get(3), a[0][2], out[0][1] == 1, out[1])));
         }
     }
+    // C12: the first frame of a control stream must be SETTINGS; a reserved (GREASE) frame type in that
+    // place is a frame like any other: H3_MISSING_SETTINGS (RFC 9114 6.2.1), whatever follows it
+    if a[0][0] == 3 && !(a[0][2] != 0 && !a[2].is_empty()) {
+        let b = a2b(&a[1]);
+        let vi = |b: &[u8]| -> Option<(u64, usize)> {
+            let f = *b.first()?;
+            let n = 1usize << (f >> 6);
+            if b.len() < n { return None; }
+            let mut v = (f & 0x3f) as u64;
+            for x in &b[1..n] { v = (v << 8) | *x as u64; }
+            Some((v, n))
+        };
+        if b.first() == Some(&0) {
+            if let Some((ty, l1)) = vi(&b[1..]) {
+                if let Some((len, l2)) = vi(&b[1 + l1..]) {
+                    let complete = b.len() >= 1 + l1 + l2 + len as usize;
+                    let reserved = ty >= 0x21 && (ty - 0x21) % 0x1f == 0;
+                    if complete && reserved && len <= 4096 && out[1] != vec![1, 0x10a] {
+                        return Some(("C12", format!("the peer's control stream began with a reserved frame (type {:#x}) instead of SETTINGS: expected a close with H3_MISSING_SETTINGS (0x10a), the peer saw {:?} (session established: {})", ty, out[1], out[0][1] == 1)));
+                    }
+                }
+            }
+        }
+    }
     None
 }
 
